@@ -358,3 +358,69 @@ func VerifGzWrite() {
 	verifrt.Assert(vhEqual(fs.b[:hl], ss.b[:hl]), "C06:header-bytes")
 	verifrt.Assert(vhEqual(fs.b[len(fs.b)-8:], ss.b[len(ss.b)-8:]), "C06:trailer-bytes")
 }
+
+// vgSrc delivers data[:k] and then a distinct error (alone or with the last bytes).
+type vgSrc struct {
+	data     []byte
+	pos      int
+	err      error
+	withLast bool
+	chunk    int
+}
+
+func (s *vgSrc) Read(p []byte) (int, error) {
+	if s.pos >= len(s.data) {
+		return 0, s.err
+	}
+	n := len(s.data) - s.pos
+	if s.chunk > 0 && n > s.chunk {
+		n = s.chunk
+	}
+	if n > len(p) {
+		n = len(p)
+	}
+	copy(p, s.data[s.pos:s.pos+n])
+	s.pos += n
+	if s.pos >= len(s.data) && s.withLast {
+		return n, s.err
+	}
+	return n, nil
+}
+
+// VerifGzFail (C15, gzip): the source fails after k bytes of a valid member
+// (k symbolic over header, payload and trailer).
+func VerifGzFail() {
+	w := &vbw{}
+	vbStored(w, false, []byte("ab"))
+	w.bits(1, 1)
+	w.bits(1, 2)
+	vbFixedSym(w, 'c')
+	vbFixedSym(w, 256)
+	body := w.bytes()
+	member := append(append([]byte(nil), vgHdr...), body...)
+	crc := crc32.ChecksumIEEE([]byte("abc"))
+	member = append(member, byte(crc), byte(crc>>8), byte(crc>>16), byte(crc>>24), 3, 0, 0, 0)
+	k := verifrt.Int()
+	verifrt.Assume(k >= 0 && k < len(member))
+	k = verifrt.Concretize(k)
+	fault := verifrt.ErrValue("src")
+	src := &vgSrc{data: member[:k], err: fault, withLast: verifrt.Pick("with", 2) == 1 && k > 0, chunk: verifrt.Param("CHUNK")}
+	var r io.Reader = src
+	if verifrt.Pick("buf", 2) == 1 {
+		r = bufio.NewReaderSize(src, 16)
+	}
+	z, err := NewReader(r)
+	verifrt.Observe("k", uint64(k))
+	if err != nil {
+		verifrt.Cover("header-fault")
+		verifrt.Assert(err == fault, "C15:gzip-header-error-identity")
+		return
+	}
+	out, rerr, _ := vgDrain(z, 2, 16)
+	verifrt.ObserveBytes("out", out)
+	verifrt.Cover("body-fault")
+	verifrt.Assert(rerr == fault, "C15:gzip-error-identity")
+	verifrt.Assert(vhPrefix(out, []byte("abc")), "C15:gzip-prefix")
+	k2, e2 := z.Read(make([]byte, 4))
+	verifrt.Assert(k2 == 0 && e2 == fault, "C15:gzip-sticky")
+}
